@@ -7,7 +7,8 @@ import Np.Model.Grad
 1. `alignAll` (any number of operands) keeps denotations and gives one common layout;
 2. `stackPolys` puts element `i` of block `b` at flat position `b * n + i`;
 3. `gradient`: position `j * n + i` is `pderiv x_j` of element `i`;
-4. `hessianOf`: position `a * (m * n) + (j * n + i)` is `pderiv x_a (pderiv x_j ·)` of element `i`. -/
+4. `hessianOf`: position `a * (m * n) + (j * n + i)` is `pderiv x_a (pderiv x_j ·)` of element `i`, rows and columns
+   both in the order of `p.names` (no assumption that the names are stored in index order). -/
 open MvPolynomial
 namespace Np
 set_option linter.unusedSectionVars false
@@ -346,8 +347,13 @@ theorem gradient_names_subset (rc rn : Bool) (p : Poly (Vec R n)) :
 abbrev hessAligned (rc rn : Bool) (p : Poly (Vec R n)) : Poly (Vec R ((partials rn p).length * n)) :=
   alignIndet (sortDedup natLt ((gradient rc rn p).names ++ p.names)) (gradient rc rn p)
 
+/-- the rows `hessianOf` joins: one derivative of the re-aligned gradient per name of the INPUT, in the order of
+`p.names` (the position of the name in the re-aligned gradient is looked up) -/
+abbrev hessRows (rc rn : Bool) (p : Poly (Vec R n)) : List (Poly (Vec R ((partials rn p).length * n))) :=
+  p.names.map fun x => derivative rn ((hessAligned rc rn p).names.idxOf x) (hessAligned rc rn p)
+
 theorem hessianOf_eq (rc rn : Bool) (p : Poly (Vec R n)) :
-    hessianOf rc rn p = gradient rc rn (hessAligned rc rn p) := rfl
+    hessianOf rc rn p = clean rc rn (stackPolys (hessRows rc rn p)) := rfl
 
 theorem hessAligned_names_nodup (rc rn : Bool) (p : Poly (Vec R n)) : (hessAligned rc rn p).names.Nodup :=
   nodup_of_sortedLt natLt_strictTotal _ (sortedLt_sortDedup natLt_strictTotal _)
@@ -382,56 +388,71 @@ theorem hessAligned_names (rc rn : Bool) (p : Poly (Vec R n)) (hs : p.names.Pair
   · exact hs.imp (fun {a b} hab => by simpa [natLt] using hab)
   · exact gradient_names_subset rc rn p
 
+/-- number of rows of the Hessian (outer axis): one per name of the input, whatever their order -/
+theorem hessian_rows (rc rn : Bool) (p : Poly (Vec R n)) : (hessRows rc rn p).length = p.names.length := by
+  simp [hessRows]
+
+theorem hessRows_getElem (rc rn : Bool) (p : Poly (Vec R n)) (a : Nat) (ha : a < p.names.length) :
+    (hessRows rc rn p)[a]'(by rw [hessian_rows]; exact ha) =
+      derivative rn ((hessAligned rc rn p).names.idxOf p.names[a]) (hessAligned rc rn p) := by
+  simp [hessRows]
+
+theorem hessRows_WF (rc rn : Bool) (p : Poly (Vec R n)) (hw : WF p) (hb : Bdd p) :
+    ∀ q ∈ hessRows rc rn p, WF q := by
+  intro q hq
+  simp only [hessRows, List.mem_map] at hq
+  obtain ⟨x, _, rfl⟩ := hq
+  exact (derivative_WF rn _ _ (WF_hessAligned rc rn p hw hb) (Bdd_hessAligned rc rn p hb)).1
+
+/-- the position looked up for the `a`-th name of the input is a position of the re-aligned gradient … -/
+theorem hessIdx_lt (rc rn : Bool) (p : Poly (Vec R n)) (a : Nat) (ha : a < p.names.length) :
+    (hessAligned rc rn p).names.idxOf p.names[a] < (hessAligned rc rn p).names.length :=
+  List.idxOf_lt_length_of_mem ((hessAligned_names_mem rc rn p _).2 (List.getElem_mem ha))
+
+/-- … and it holds that very name -/
+theorem hessIdx_name (rc rn : Bool) (p : Poly (Vec R n)) (a : Nat) (ha : a < p.names.length) :
+    (hessAligned rc rn p).names[(hessAligned rc rn p).names.idxOf p.names[a]]'(hessIdx_lt rc rn p a ha) =
+      p.names[a] :=
+  List.getElem_idxOf _
+
 /-- the Hessian of a well-formed array is well-formed -/
 theorem WF_hessianOf (rc rn : Bool) (p : Poly (Vec R n)) (hw : WF p) (hb : Bdd p) : WF (hessianOf rc rn p) :=
-  WF_gradient rc rn _ (WF_hessAligned rc rn p hw hb) (Bdd_hessAligned rc rn p hb)
+  WF_clean rc rn _ (WF_stackPolys _ (hessRows_WF rc rn p hw hb))
 
-/-- outer index: position `a * N + k` of the Hessian is `∂/∂y_a` of position `k` of the gradient
-(`y` = names of the re-aligned gradient, `N` = size of the gradient) -/
+/-- outer index: position `a * N + k` of the Hessian is `∂/∂x_a` of position `k` of the gradient
+(`x` = names of the INPUT in their own order, `N` = size of the gradient) -/
 theorem hessian_elem_outer (rc rn : Bool) (p : Poly (Vec R n)) (hw : WF p) (hb : Bdd p) (a : Nat)
-    (ha : a < (hessAligned rc rn p).names.length) (k : Fin ((partials rn p).length * n))
-    (k' : Fin ((partials rn (hessAligned rc rn p)).length * ((partials rn p).length * n)))
+    (ha : a < p.names.length) (k : Fin ((partials rn p).length * n))
+    (k' : Fin ((hessRows rc rn p).length * ((partials rn p).length * n)))
     (hk' : k'.val = a * ((partials rn p).length * n) + k.val) :
-    denAt (hessianOf rc rn p) k' = pderiv ((hessAligned rc rn p).names[a]) (denAt (gradient rc rn p) k) := by
-  rw [hessianOf_eq, gradient_elem rc rn _ (WF_hessAligned rc rn p hw hb) (Bdd_hessAligned rc rn p hb) a ha k k' hk']
-  simp only [denAt, den_mapCoef, den_hessAligned rc rn p hw hb]
+    denAt (hessianOf rc rn p) k' = pderiv (p.names[a]) (denAt (gradient rc rn p) k) := by
+  have hws := hessRows_WF rc rn p hw hb
+  have hal : a < (hessRows rc rn p).length := by rw [hessian_rows]; exact ha
+  rw [hessianOf_eq, denAt_clean rc rn _ (WF_stackPolys _ hws) k',
+    stackPolys_elem (hessRows rc rn p) hws a hal k k' hk', hessRows_getElem rc rn p a ha]
+  simp only [denAt, den_mapCoef, derivative_den rn _ _ (WF_hessAligned rc rn p hw hb)
+    (Bdd_hessAligned rc rn p hb) (hessIdx_lt rc rn p a ha), hessIdx_name rc rn p a ha,
+    den_hessAligned rc rn p hw hb, pderiv_map]
 
-/-- C06 (Hessian): position `a * (m * n) + (j * n + i)` is `∂/∂y_a ∂/∂x_j` of element `i` of `p` -/
+/-- C06 (Hessian): position `a * (m * n) + (j * n + i)` is `∂/∂x_a ∂/∂x_j` of element `i` of `p`, both indices in the
+order of `p.names`, for every well-formed `p` (names need not be stored in index order), whatever the retain flags -/
 theorem hessian_elem (rc rn : Bool) (p : Poly (Vec R n)) (hw : WF p) (hb : Bdd p) (a : Nat)
-    (ha : a < (hessAligned rc rn p).names.length) (j : Nat) (hj : j < p.names.length) (i : Fin n)
-    (k' : Fin ((partials rn (hessAligned rc rn p)).length * ((partials rn p).length * n)))
-    (hk' : k'.val = a * ((partials rn p).length * n) + (j * n + i.val)) :
-    denAt (hessianOf rc rn p) k' =
-      pderiv ((hessAligned rc rn p).names[a]) (pderiv (p.names[j]) (denAt p i)) := by
-  rw [hessian_elem_outer rc rn p hw hb a ha ⟨j * n + i.val, gradient_index_lt rn p j hj i⟩ k' hk',
-    gradient_elem' rc rn p hw hb j hj i]
-
-/-- for sorted input names both indices range over the names of the input: the Hessian has one row and one
-column per indeterminate of `p`, whatever the retain flags, and entry `(a, j)` is `∂²/∂x_a∂x_j` -/
-theorem hessian_elem_sorted (rc rn : Bool) (p : Poly (Vec R n)) (hw : WF p) (hb : Bdd p)
-    (hs : p.names.Pairwise (· < ·)) (a : Nat) (ha : a < p.names.length) (j : Nat) (hj : j < p.names.length)
-    (i : Fin n) (k' : Fin ((partials rn (hessAligned rc rn p)).length * ((partials rn p).length * n)))
+    (ha : a < p.names.length) (j : Nat) (hj : j < p.names.length) (i : Fin n)
+    (k' : Fin ((hessRows rc rn p).length * ((partials rn p).length * n)))
     (hk' : k'.val = a * (p.names.length * n) + (j * n + i.val)) :
     denAt (hessianOf rc rn p) k' = pderiv (p.names[a]) (pderiv (p.names[j]) (denAt p i)) := by
-  have hn := hessAligned_names rc rn p hs
-  have ha' : a < (hessAligned rc rn p).names.length := by rw [hn]; exact ha
-  rw [hessian_elem rc rn p hw hb a ha' j hj i k' (by rw [hk', partials_length])]
-  congr 2
-  simp only [hn]
-
-/-- number of rows of the Hessian (outer axis) for sorted input names -/
-theorem hessian_rows (rc rn : Bool) (p : Poly (Vec R n)) (hs : p.names.Pairwise (· < ·)) :
-    (partials rn (hessAligned rc rn p)).length = p.names.length := by
-  rw [partials_length, hessAligned_names rc rn p hs]
+  rw [hessian_elem_outer rc rn p hw hb a ha ⟨j * n + i.val, gradient_index_lt rn p j hj i⟩ k'
+      (by simp only [hk', partials_length]),
+    gradient_elem' rc rn p hw hb j hj i]
 
 /-- the Hessian is symmetric: entries `(a, j)` and `(j, a)` denote the same polynomial -/
 theorem hessian_symm (rc rn : Bool) (p : Poly (Vec R n)) (hw : WF p) (hb : Bdd p)
-    (hs : p.names.Pairwise (· < ·)) (a : Nat) (ha : a < p.names.length) (j : Nat) (hj : j < p.names.length)
-    (i : Fin n) (k1 k2 : Fin ((partials rn (hessAligned rc rn p)).length * ((partials rn p).length * n)))
+    (a : Nat) (ha : a < p.names.length) (j : Nat) (hj : j < p.names.length)
+    (i : Fin n) (k1 k2 : Fin ((hessRows rc rn p).length * ((partials rn p).length * n)))
     (h1 : k1.val = a * (p.names.length * n) + (j * n + i.val))
     (h2 : k2.val = j * (p.names.length * n) + (a * n + i.val)) :
     denAt (hessianOf rc rn p) k1 = denAt (hessianOf rc rn p) k2 := by
-  rw [hessian_elem_sorted rc rn p hw hb hs a ha j hj i k1 h1,
-    hessian_elem_sorted rc rn p hw hb hs j hj a ha i k2 h2, pderiv_pderiv_comm]
+  rw [hessian_elem rc rn p hw hb a ha j hj i k1 h1,
+    hessian_elem rc rn p hw hb j hj a ha i k2 h2, pderiv_pderiv_comm]
 end Hessian
 end Np
